@@ -161,10 +161,12 @@ def run(repo, rep, tier):
              ("statement-space", "statement-expression-width",
               "split-parts-steps"), minimum=3)
     L.option_defaults_rule(repo, rep, "R07.5", ("boolean_attributes",))
+    L.option_forwarded_rule(repo, rep, "R07.5", ("default_marker",))
+    L.engine_fields_rule(repo, rep, "R07.4")
     # (C09 owns the element details)
     from . import c09 as _c09
     L.borrow(repo, rep, "R07.4", "C09", _c09.element_details,
-             ("quote-when-computed", "decode-which"))
+             ("quote-when-computed", "decode-which", "multipart-complete"))
     ee = repo.func("chameleon.compiler.ExpressionEngine.__init__")
     a_ = ee.node.args
     names_ = [x.arg for x in a_.args]
@@ -1064,6 +1066,40 @@ def _emission(repo, rep):
     rep.check(ok, "R07.4", cb.qualname, "the boolean conversion receives the "
               "name, the default and the marker", construct="bool-args",
               where=L.where(cb))
+    # the structure conversion recognises the marker too (an attribute
+    # value 'structure: default', a string: expression that is the marker)
+    cs = repo.func(COMP + "ExpressionEngine._convert_structure")
+    ec = [c for c in ast.walk(cs.node) if isinstance(c, ast.Call)
+          and src(c.func) == "emit_convert"]
+    rep.check(bool(ec) and all(any(
+        k.arg == "default_marker" and src(k.value) == "self._default_marker"
+        for k in c.keywords) for c in ec), "R07.4", cs.qualname,
+        "the inline conversion receives the engine's default marker",
+        construct="structure-marker", where=L.where(cs))
+    # an attribute written without a value has the empty quote: the text
+    # conversion supports it (it is one of the quotes looked for, and the
+    # entity is computed for a character, never for the empty string)
+    ct = repo.func(COMP + "ExpressionEngine._convert_text")
+    loops = [n for n in ast.walk(ct.node) if isinstance(n, ast.For)
+             and isinstance(n.iter, (ast.Tuple, ast.List))
+             and all(isinstance(e, ast.Constant) for e in n.iter.elts)]
+    quotes = {e.value for n in loops for e in n.iter.elts}
+    ents = [c for c in ast.walk(ct.node) if isinstance(c, ast.Call)
+            and src(c.func) == "char2entity" and c.args]
+    ok_e = bool(ents)
+    for c in ents:
+        a = c.args[0]
+        if not (isinstance(a, ast.BoolOp) and isinstance(a.op, ast.Or) and
+                isinstance(a.values[-1], ast.Constant) and
+                isinstance(a.values[-1].value, str) and
+                len(a.values[-1].value) == 1):
+            ok_e = False
+    rep.check({'"', "'", ""} <= quotes and ok_e, "R07.4", ct.qualname,
+              "the quotes the text conversion supports include the empty "
+              "one of a minimised attribute, and the quote entity is that "
+              "of a character", construct="empty-quote-supported",
+              where=L.where(ct), detail="quotes looked for: %s" % sorted(
+                  quotes))
     # dict attributes: boolean names inside the loop
     da = repo.func(COMP + "Compiler.visit_DictAttributes")
     r = L.emission(repo, da.qualname)
@@ -1156,11 +1192,16 @@ def _defaults(repo, rep):
               "default only outside XML mode and only when no explicit set "
               "was given", construct="html-defaults", where=L.where(f))
     tab = repo.const("chameleon.zpt.template", "BOOLEAN_HTML_ATTRIBUTES")
-    rep.check({"checked", "selected", "disabled", "readonly",
-               "multiple"} <= set(tab) and all(x == x.lower() for x in tab),
+    # (the list the source cites: XHTML 1.0, appendix C.10 -- the boolean
+    # attributes of HTML 4; more names are fine, fewer are not)
+    c10 = {"compact", "nowrap", "ismap", "declare", "noshade", "checked",
+           "disabled", "readonly", "multiple", "selected", "noresize",
+           "defer"}
+    rep.check(c10 <= set(tab) and all(x == x.lower() for x in tab),
               "R07.5", "chameleon.zpt.template.BOOLEAN_HTML_ATTRIBUTES",
-              "the default set contains the common HTML boolean attributes, "
-              "lower case", construct="html-table", detail=str(tab))
+              "the default set contains the boolean attributes of HTML "
+              "(XHTML 1.0 C.10), lower case", construct="html-table",
+              detail="missing: %s" % sorted(c10 - set(tab)))
     call = [n for n in ast.walk(f.node) if isinstance(n, ast.Call)
             and src(n.func) == "MacroProgram"]
     ok = bool(call) and any(k.arg == "boolean_attributes" and
